@@ -72,6 +72,8 @@ H("c18_single_line_comment_7", "c_scalar::c18_single_line_comment_7", ["C18", "C
   "every ASCII comment text `--...` of length 2..=7", mode="lean", timeout_s=600, replay="single_line_comment_7")
 H("c18_single_line_comment_9", "c_scalar::c18_single_line_comment_9", ["C18", "C01", "C04"], ["generator::token_based::is_single_line_comment"],
   "every ASCII comment text `--...` of length 2..=9", tier="thorough", mode="lean", timeout_s=1200, replay="single_line_comment_9")
+H("c18_single_line_comment_12", "c_scalar::c18_single_line_comment_12", ["C18", "C01", "C04"], ["generator::token_based::is_single_line_comment"],
+  "every ASCII comment text `--...` of length 2..=12", tier="thorough", mode="lean", timeout_s=1800, mem_gb=24, replay="single_line_comment_12")
 H("c04_token_shift", "c_scalar::c04_token_shift", ["C04", "C12"], ["Token::shift_token_line", "Token::replace_with_content", "Token::get_line_number"],
   "any usize line, any isize amount, the three token position kinds", mode="full", timeout_s=300, replay="token_shift")
 H("c13_raw_bytes", "c_scalar::c13_raw_bytes", ["C13", "C14"], ["generator::utils::needs_escaping", "generator::utils::needs_quoted_string"],
@@ -247,13 +249,13 @@ H("c12_sort_char_order", "c_scalar::c12_sort_char_order", ["C12"], ["rename_vari
 
 # ---------------------------------------------------------------------------------------- deeper bounds (thorough tier)
 H("c02_fuse_tokens_deep", "c02_fuse::c02_fuse_tokens_deep", ["C01", "C18", "C12"], ["generator::utils::should_break_with_space"],
-  "every pair of well-formed tokens A (<= 4 printable ASCII bytes) and B (<= 5 bytes) that the grammar allows to be adjacent", tier="thorough",
+  "every pair of well-formed tokens A (<= 6 printable ASCII bytes) and B (<= 7 bytes) that the grammar allows to be adjacent", tier="thorough",
   mode="lean", timeout_s=1800, mem_gb=24, replay="fuse_tokens_deep",
   assumptions=["adjacency relation reference::may_follow written from the Lua 5.1/Luau grammar", "R-LEX reference::munch models Lua 5.1 read_numeral / Luau readNumber maximal munch"])
 H("c02_fuse_dense_deep", "c02_fuse::c02_fuse_dense_deep", ["C02"],
   ["generator::utils::should_break_with_space", "generator::utils::break_concat", "generator::utils::break_variable_arguments",
    "generator::utils::break_minus", "generator::utils::break_equal", "generator::utils::break_long_string"],
-  "token pairs A (<= 4 bytes), B (<= 5 bytes); numbers as write_number spells them", tier="thorough", mode="lean", timeout_s=1800, mem_gb=24,
+  "token pairs A (<= 6 bytes), B (<= 7 bytes); numbers as write_number spells them", tier="thorough", mode="lean", timeout_s=1800, mem_gb=24,
   replay="fuse_dense_deep", assumptions=["the dense/readable writers call the break_* predicate named in each claim before the token it guards (call sites read, not executed)"])
 
 H("c13_quote_symbol_8", "c_scalar::c13_quote_symbol_8", ["C13"], ["generator::utils::get_quote_symbol"],
